@@ -244,8 +244,10 @@ def _mk_reduction(name):
             form = 0
         if form in (3, 4) and not has_dtype:
             form = 0
+        cdt = False
         if form == 4:
-            kw["dtype"] = onp.float64
+            cdt = c.bool()  # a complex accumulator / result type requested (also for real input)
+            kw["dtype"] = complex if cdt else onp.float64
         if form == 3:
             kw2 = {k: v for k, v in kw.items() if k != "axis"}
             meth = c.bool()
@@ -261,8 +263,8 @@ def _mk_reduction(name):
         dom = (0.5, 2.0) if name == "prod" else (-2, 2)
         neg = isinstance(ax, int) and ax < 0 or (isinstance(ax, tuple) and any(a < 0 for a in ax))
         # (a real dtype request on complex input makes NumPy discard the imaginary part with a ComplexWarning: not drawn)
-        return Call("r:" + name, fn, [s], dom=dom, cplx=name in ("sum", "mean", "prod", "var", "std") and form not in (3, 4),
-                    desc=[name, list(s), {k: (list(v) if isinstance(v, tuple) else v) for k, v in kw.items() if k != "dtype"}, form],
+        return Call("r:" + name, fn, [s], dom=dom, cplx=name in ("sum", "mean", "prod", "var", "std") and (form not in (3, 4) or cdt),
+                    desc=[name, list(s), {k: (list(v) if isinstance(v, tuple) else v) for k, v in kw.items() if k != "dtype"}, form, "complex" if cdt else None],
                     feats={"fn": name, "axis_kind": akind, "axis_neg": bool(neg), "keepdims": kw.get("keepdims"),
                            "ddof": kw.get("ddof", 0), "form": ["func", "method", "positional", "positional_dtype", "dtype_kw"][form], "ndim": nd,
                            "naxes": len(ax) if isinstance(ax, tuple) else None})
